@@ -101,14 +101,40 @@ Definition verify_hits (cr : crules) (sidx : N) (fl : vflags) (s : bytes) (fixed
 Definition scan_string (cr : crules) (sidx : N) (fl : vflags) (s : bytes) (fixed : option N) (buf : bytes) : list (nat * (N * N)) :=
   fold_left (fun acc i => verify_hits cr sidx fl s fixed buf i acc) (seq 0 (S (length buf))) [].
 
-(* the same, reading the string's text and flags from the decoded image *)
+(* the same scan carrying the automaton state along instead of re-running it for every position (what the C loop does);
+   Proofs/VerifyProofs.v scan_string_inc_eq: equal to [scan_string] *)
+Definition verify_state_hits (cr : crules) (sidx : N) (fl : vflags) (s : bytes) (fixed : option N) (buf : bytes)
+           (q : option N) (i : nat) (acc : list (nat * (N * N))) : list (nat * (N * N)) :=
+  fold_left (fun acc mu =>
+    let am := pool_at cr mu in
+    if am_string am =? sidx then
+      let off := (i - N.to_nat (am_backtrack am))%nat in
+      match verify_literal fl s (am_backtrack am) fixed buf off with
+      | Some lk => add_match (off, lk) acc
+      | None => acc
+      end
+    else acc)
+    (match q with Some q' => filter (fun k => am_backtrack (pool_at cr k) <=? N.of_nat i) (match_list cr q') | None => [] end) acc.
+
+Fixpoint scan_inc (cr : crules) (sidx : N) (fl : vflags) (s : bytes) (fixed : option N) (buf : bytes)
+         (q : option N) (i : nat) (rest : bytes) (acc : list (nat * (N * N))) : list (nat * (N * N)) :=
+  let acc' := verify_state_hits cr sidx fl s fixed buf q i acc in
+  match rest with
+  | [] => acc'
+  | b :: r => scan_inc cr sidx fl s fixed buf (match q with Some q' => ac_step cr q' b | None => None end) (S i) r acc'
+  end.
+
+Definition scan_string_inc (cr : crules) (sidx : N) (fl : vflags) (s : bytes) (fixed : option N) (buf : bytes) : list (nat * (N * N)) :=
+  scan_inc cr sidx fl s fixed buf (Some 0) 0 buf [].
+
+(* reading the string's text and flags from the decoded image *)
 Definition ystring_at (cr : crules) (sidx : N) : option ystring := nth_error (cr_strings cr) (N.to_nat sidx).
 
 Definition scan_image_string (cr : crules) (sidx : N) (buf : bytes) : list (nat * (N * N)) :=
   match ystring_at cr sidx with
   | Some ys =>
       let fixed := if has_flag (ys_flags ys) STRING_FLAGS_FIXED_OFFSET then Some (ys_fixed ys) else None in
-      scan_string cr sidx (vflags_of (ys_flags ys)) (ys_bytes ys) fixed buf
+      scan_string_inc cr sidx (vflags_of (ys_flags ys)) (ys_bytes ys) fixed buf
   | None => []
   end.
 
@@ -132,6 +158,7 @@ Definition forced_key_ok (lo hi : N) (enabled : bool) (r' : bytes) (a : bytes * 
   let bt := N.to_nat (snd a) in
   let w0 := (bt - length v)%nat in
   let J := filter (fun j => (j <? length r')%nat) (seq w0 (length v)) in
+  if (bt <? length v)%nat then false else
   match J with
   | [] => false
   | j0 :: _ =>
@@ -157,3 +184,21 @@ Definition flags_agree (fl : vflags) (m : tmods) : bool :=
   Bool.eqb (vf_ascii fl) (m_ascii m || negb (m_wide m)) && Bool.eqb (vf_wide fl) (m_wide m) &&
   Bool.eqb (vf_nocase fl) (m_nocase m) && Bool.eqb (vf_fullword fl) (m_fullword m) &&
   Bool.eqb (vf_xor fl) (match m_xor m with Some _ => true | None => false end).
+
+(* ---------------------------------------------------------------- the certificates of Proofs/VerifyProofs.v *)
+Definition fits_flag_ok (fl : vflags) (s : bytes) : bool :=
+  Bool.eqb (vf_fits fl) ((if vf_wide fl then 2 * length s else length s) <=? Z.to_nat YR_MAX_ATOM_LENGTH)%nat.
+
+Definition text_certs_on (atoms : list (bytes * N)) (fl : vflags) (s : bytes) (m : tmods) : bool :=
+  flags_agree fl m && legal m && all_bytes s && negb (match s with [] => true | _ => false end) &&
+  (if vf_fits fl then fits_ok fl s m atoms else xor_keys_ok fl s m atoms).
+
+Definition text_certs (cr : crules) (sidx : N) (fl : vflags) (s : bytes) (m : tmods) : bool :=
+  text_certs_on (atoms_of cr sidx) fl s m.
+
+Definition complete_certs_on (atoms : list (bytes * N)) (fl : vflags) (s : bytes) (m : tmods) : bool :=
+  cover_ok s m atoms && fits_flag_ok fl s &&
+  (if vf_wide fl && (vf_ascii fl || vf_xor fl) then nonul s else true).
+
+Definition complete_certs (cr : crules) (sidx : N) (fl : vflags) (s : bytes) (m : tmods) : bool :=
+  complete_certs_on (atoms_of cr sidx) fl s m.
